@@ -21,8 +21,7 @@ EXPLANATION = (
     "state/status/id and one named advisory statistic. L-GUARDED / L-PAIR as in "
     "C01 (a torn read of a reader cursor in reader_min is an overlap waiting to "
     "happen). R-DIM: the slowest reader is chosen by (lap, position) in that "
-    "order. That next_write's four placement cases compute non-overlapping "
-    "regions inside the buffer is integer arithmetic and is not decided.")
+    "order.")
 EXPLANATION += (' R-LIN (linear-relations abstract interpretation, Fourier-Motzkin entailment) now decides the placement arithmetic: every granting return of next_write lies in the free space with respect to the slowest reader and inside the buffer; mapped == beg + nbytes, the result is data + beg, a lap change is recorded as high = old head / lap + 1, write_unmap commits head = mapped, the wrap-everybody loop covers the registered readers; cursor_cmp / reader_min as in C01. R-FULL-GUARD: grants only behind the ring-full test. Which lap the slowest reader is in is carried structurally, not numerically.')
 
 
